@@ -280,7 +280,8 @@ class FlowIRExperimentConfiguration:
 
         system_vars = system_vars or {}
         config_patches = config_patches or {}
-        variable_files = list(set(variable_files or []))
+        # VV: drop duplicates but keep the order (the files are layered in the order given, the last one wins)
+        variable_files = list(dict.fromkeys(variable_files or []))
 
         out_errors = []
         self.file_format = file_format
@@ -481,7 +482,8 @@ class FlowIRExperimentConfiguration:
 
         systemvars = systemvars or {}
         config_patches = config_patches or {}
-        variable_files = list(set(variable_files or []))
+        # VV: drop duplicates but keep the order (the files are layered in the order given, the last one wins)
+        variable_files = list(dict.fromkeys(variable_files or []))
 
         out_errors = []
 
